@@ -7,8 +7,8 @@
    3. Therefore idempotence follows from the round trip: if the formatted text parses to a
       tree with the same meaning and gaps, formatting it again yields the same bytes.
    4. A file that does not parse is left untouched by the command.
-   The re-parse half (context lemmas, DESIGN Appendix B.3) is proved for the fragment stated
-   in Properties/C08.v.                                                                       *)
+   The re-parse half (context lemmas, DESIGN Appendix B.3) is Proofs/RoundTrip*.v
+   (RoundTripFile.roundtrip).                                                                 *)
 From Coq Require Import ZArith List Bool Lia ZifyBool.
 From Knut Require Import Model.Bytes Model.Utf8 Model.Scanner Model.Parser Model.SynPrinter
   Spec.SyntaxSpec Proofs.ScannerProofs Proofs.ParserProofs Spec.FormatSpec Model.SynRender.
